@@ -161,6 +161,12 @@ class Translator:
                 return
         ax = self.axioms
         if fname == 'exp':
+            if targ.op == 'add' and len(targ.args) <= 4:
+                prod = None
+                for x_ in targ.args:
+                    e_ = self.tr(tm.app('exp', x_))
+                    prod = e_ if prod is None else prod * e_
+                ax.append(zapp == prod)         # exp(a + b) = exp(a) exp(b)
             ax.append(zapp > 0)
             ax.append(z3.Implies(zarg == 0, zapp == 1))
             ax.append(zapp >= 1 + zarg)          # exp(x) >= 1 + x
@@ -168,6 +174,14 @@ class Translator:
             ax.append(z3.Implies(zarg > 0, zapp > 1))
         elif fname == 'log':
             ax.append(z3.Implies(zarg == 1, zapp == 0))
+            # structural: log of a product / quotient / power of positives
+            if targ.op == 'mul' and len(targ.args) <= 4:
+                parts = [(self.tr(x_), self.tr(tm.app('log', x_))) for x_ in targ.args]
+                ax.append(z3.Implies(z3.And(*[pz > 0 for pz, _ in parts]), zapp == sum(lz for _, lz in parts)))
+            elif targ.op == 'div':
+                a_, b_ = targ.args
+                za_, zb_ = self.tr(a_), self.tr(b_)
+                ax.append(z3.Implies(z3.And(za_ > 0, zb_ > 0), zapp == self.tr(tm.app('log', a_)) - self.tr(tm.app('log', b_))))
             ax.append(z3.Implies(zarg > 0, zapp <= zarg - 1))   # log x <= x - 1
             ax.append(z3.Implies(zarg > 1, zapp > 0))
             ax.append(z3.Implies(z3.And(zarg > 0, zarg < 1), zapp < 0))
@@ -241,6 +255,8 @@ class Translator:
             self.axioms.append(z3.Implies(zhi <= zlo, r == 0))
             if _nonneg(body):
                 self.axioms.append(r >= 0)      # a finite sum of non-negative terms
+            if _pos(body):
+                self.axioms.append(z3.Implies(zhi > zlo, r > 0))
         elif op == 'bag':
             pass
         else:
@@ -263,6 +279,24 @@ class Translator:
 
 
 _int_terms = {}
+
+
+def _pos(b):
+    """syntactic sufficient condition for b > 0"""
+    op = b.op
+    if op == 'const':
+        return b.sort != 'B' and b.args[0] > 0
+    if op == 'app':
+        return b.args[0] in ('exp', 'npdf', 'ncdf')
+    if op == 'mul':
+        return all(_pos(a) for a in b.args)
+    if op == 'add':
+        return all(_nonneg(a) for a in b.args) and any(_pos(a) for a in b.args)
+    if op == 'div':
+        return _pos(b.args[0]) and _pos(b.args[1])
+    if op == 'toreal':
+        return _pos(b.args[0])
+    return False
 
 
 def _nonneg(b):
